@@ -197,11 +197,15 @@ func configChanged(config SubnetConfig, current SubnetConfig) bool {
 
 // Mode returns the current mode
 func (h *Handler) Mode() Mode {
+	h.Lock()
+	defer h.Unlock()
 	return h.mode
 }
 
 // SetMode changes the operating mode
 func (h *Handler) SetMode(mode Mode) {
+	h.Lock()
+	defer h.Unlock()
 	h.mode = mode
 }
 
